@@ -447,6 +447,8 @@ pub enum MidiOp {
     Truncated { kind: u8, own: bool, d1: Option<u8> },
     /// arbitrary bytes
     Raw(Vec<u8>),
+    /// the same complete channel message n times in a row
+    Burst { kind: u8, d1: u8, d2: u8, n: u16 },
     SetPriority(Prio),
     SetRetrigger(bool),
     PollRising,
@@ -505,6 +507,21 @@ pub fn encode(op: &MidiOp, channel: u8, running: &mut Option<u8>, out: &mut Vec<
         MidiOp::Raw(b) => {
             out.extend_from_slice(b);
             *running = None; // unknown: force explicit status afterwards
+        }
+        MidiOp::Burst { kind, d1, d2, n } => {
+            let k = 0x8 + (*kind % 7);
+            let status = k << 4 | channel;
+            for i in 0..*n {
+                // running status for every second repetition
+                if i % 2 == 0 || *running != Some(status) {
+                    out.push(status);
+                }
+                *running = Some(status);
+                out.push(*d1 & 0x7F);
+                if data_len(status) == 2 {
+                    out.push(*d2 & 0x7F);
+                }
+            }
         }
         _ => {}
     }
@@ -684,9 +701,15 @@ pub fn run_case(case: &MidiCase, mask: u32, stats: &mut Stats) -> Result<CaseInf
                                 stats.count("label.cc121_nonzero_value_decisive", 1);
                             }
                         }
-                        if model.overflowed {
+                        if model.overflowed && mask != C05 {
+                            // C04's domain ends at 32 outstanding note-ons; C05's latches follow the observed gate and
+                            // the decoded note-ons only, so that check simply carries on
                             stats.count("cases_truncated_more_than_32_notes_outstanding", 1);
                             return Ok(CaseInfo { nontrivial: false });
+                        }
+                        if model.overflowed {
+                            stats.count("label.more_than_32_note_ons_outstanding", 1);
+                            model.overflowed = false;
                         }
                         msgs_since_poll += 1;
                         let o = observe(&real);
